@@ -38,13 +38,18 @@ def run(tier, seed, t0):
     m = Merged(); wd = R.workdir("C12")
     n = T(tier, 500, 150000)
     na = T(tier, 120, 15000)
-    R.run_inv(Inv("geometry", n, "plain", timeout=T(tier, 600, 14400)), seed, wd, m)
+    # the repository's cells own their faces and the faces hold a shared pointer to the cell: cells are never freed, a harness process grows with
+    # every mesh; the thorough tier therefore runs in slices of 50 000 meshes (16 processes each) one after another
+    slice_n = 50000
+    for k0 in range(0, n, slice_n):
+        R.run_inv(Inv("geometry", min(slice_n, n - k0), "plain", timeout=T(tier, 600, 14400), first=k0, tag="geometry/plain/c1d0" if n <= slice_n else "geometry/plain/c1d0/slice%d" % (k0 // slice_n)), seed, wd, m)
     R.run_inv(Inv("geometry", na, "asan", timeout=T(tier, 900, 14400), first=n), seed, wd, m)
     total_geometry = m.evaluations
     # measures reported after a history (refinement passes, node moves, force phases, compaction), against the own measures of the live mesh
     nh = T(tier, 1500, 180000)
-    R.run_inv(Inv("geometry_hist", nh, "plain", timeout=T(tier, 900, 14400), tag="geometry_hist/plain"), seed, wd, m)
-    R.run_inv(Inv("geometry_hist", T(tier, 100, 2000), "asan", timeout=T(tier, 900, 14400), first=nh, tag="geometry_hist/asan"), seed, wd, m)
+    for k0 in range(0, nh, 60000):
+        R.run_inv(Inv("geometry_hist", min(60000, nh - k0), "plain", timeout=T(tier, 900, 14400), first=7000000 + k0, tag="geometry_hist/plain" if nh <= 60000 else "geometry_hist/plain/slice%d" % (k0 // 60000)), seed, wd, m)
+    R.run_inv(Inv("geometry_hist", T(tier, 100, 2000), "asan", timeout=T(tier, 900, 14400), first=7000000 + nh, tag="geometry_hist/asan"), seed, wd, m)
     b = m.bins; total = total_geometry
     regular = total - sum(b.get("flip_exhaustive_meshes:" + s, 0) for s in SMALL)
     floors = {
